@@ -45,6 +45,8 @@ CHECKS = {
    design="5/C13", technique="TLC invariant CheckRer + trace validation of rer / rer_nrb / rer_onst"),
  "C14": dict(text="Session histories Evaluate ; AddPv(delta) ; Evaluate: TLC enumerates buildings x increments (MC_C14, regulatory sets), checks monotonicity exactly on the specification and the pairs are replayed on the real library and judged by TLC (Trace_C14)." + BOTH,
    design="5/C14", technique="TLA+ history spec (AddPv) + TLC invariant CheckMono + trace validation of pairs"),
+ "C15": dict(text="spec/Acs.tla transcribes the DHW renewable-share indicator branch by branch; TLC enumerates the supply mixes x other services x non-EPB use x auxiliaries x demand classes and checks range, closed forms of the canonical mixes, the invariances and the error classes on the specification (MC_C15); the mixes are replayed on the real library and TLC recomputes the fraction from the logged inputs (value or error class), checks the misc keys and the invariance over histories (k_exp, scaling, load matching).",
+   design="5/C15", technique="TLA+ transcription of the indicator + TLC enumeration of supply mixes + trace validation (recomputation and histories)"),
  "C16": dict(category="fault_enumeration",
    text="Model-driven fault enumeration: spec/Faults.tla defines the token-level corruption actions and TLC enumerates every fault (quick) / every fault pair (thorough) from components and factor files over an alphabet of atoms, plus token soups; each text is run through every public library entry point (catch_unwind) and through the real program, with valid texts of every kind and option atoms; the oracle is the terminal-state set of the specification (Trace_C16): Ok / typed error, deliberate exit code with stderr - Panic, signal, timeout are not states. This is the right level because the property is the absence of a bad terminal state over a generated input space, not a functional relation.",
    design="5/C16", technique="TLA+ fault actions + TLC enumeration of fault sequences + terminal-state trace oracle"),
